@@ -208,7 +208,7 @@ func rigMode(outPath string, files []string) error {
 			ops, cond := describe(cc)
 			cp := c
 			emit(report{F: c.F, B: c.B, I: c.I, J: c.J, Style: 0, Level: "rig", Matched: matched, Class: ob.Class, Out: hex.EncodeToString(now),
-				Err: ob.Err, Note: ob.Note, Body: hex.EncodeToString(cc.Body), Ops: ops, Cond: cond, Case: &cp})
+				Err: ob.Err, Note: ob.Note, Body: hex.EncodeToString(cc.Body), Ops: ops, Cond: cond, Expect: expectations(&c, cc), Case: &cp})
 		}
 		// keep the swamp small
 		cl.Delete(ctx, &hydrapb.DeleteRequest{Swamps: []*hydrapb.DeleteRequest_SwampKeys{{IslandID: 1, SwampName: sw, Keys: []string{key}}}})
